@@ -87,6 +87,11 @@ More == Len(prog) < MAXLEN
 
 \* x = type(y)(y)
 Copy(x, y) == "copy" \in OPS /\ More /\ Bound(y) /\ FreshP(x, Ty(y), Val(y), <<"copy", x, y>>, lastabs, -ParOf(y))
+\* x = OtherClass(y): copy construction ACROSS classes of the same shape (a plain mesh from a mesh sub-class and back, one
+\* two-component class from another): the result has the other class and, like every copy, storage of its own
+Twin(ty) == CASE ty = "mesh" -> "mesh2" [] ty = "mesh2" -> "mesh" [] ty = "mc" -> "mc2" [] OTHER -> "mc"
+IsMc(ty) == ty \in {"mc", "mc2"}
+CopyTo(x, y) == "copyto" \in OPS /\ More /\ Bound(y) /\ Fresh(x, Twin(Ty(y)), Val(y), <<"copyto", x, y>>, lastabs)
 \* x = y
 Alias(x, y) == /\ "alias" \in OPS /\ More /\ Bound(y) /\ x # y
                /\ env' = [env EXCEPT ![x] = env[y]]
@@ -133,7 +138,7 @@ SetPar(x) == /\ "setpar" \in OPS /\ More /\ Bound(x) /\ ParOf(x) # 0
              /\ obs' = Append(obs, Observe(env, objs, bufs'))
              /\ UNCHANGED <<env, objs, nobj, nbuf, lastabs>>
 \* x = y.<component k> : a mesh VIEW of the parent's buffer
-Comp(x, y, k) == /\ "comp" \in OPS /\ More /\ Bound(y) /\ Ty(y) = "mc" /\ x # y
+Comp(x, y, k) == /\ "comp" \in OPS /\ More /\ Bound(y) /\ IsMc(Ty(y)) /\ x # y
                  /\ nobj' = nobj + 1
                  /\ LET h == Len(objs[env[y]].idx) \div 2 IN
                     objs' = objs @@ (nobj + 1 :> [ty |-> "mesh", buf |-> objs[env[y]].buf, idx |-> SubSeq(objs[env[y]].idx, k * h + 1, (k + 1) * h), par |-> 0])
@@ -147,8 +152,8 @@ EverySecond(s) == [i \in 1 .. (Len(s) + 1) \div 2 |-> s[2 * i - 1]]
 Stride(x, y) == /\ "stride" \in OPS /\ More /\ Bound(y) /\ x # y
                 /\ LET o == objs[env[y]]
                        h == Len(o.idx) \div 2
-                       ni == IF o.ty = "mc" THEN EverySecond(SubSeq(o.idx, 1, h)) \o EverySecond(SubSeq(o.idx, h + 1, 2 * h)) ELSE EverySecond(o.idx)
-                   IN /\ (IF o.ty = "mc" THEN h >= 2 ELSE Len(o.idx) >= 2)
+                       ni == IF IsMc(o.ty) THEN EverySecond(SubSeq(o.idx, 1, h)) \o EverySecond(SubSeq(o.idx, h + 1, 2 * h)) ELSE EverySecond(o.idx)
+                   IN /\ (IF IsMc(o.ty) THEN h >= 2 ELSE Len(o.idx) >= 2)
                       /\ objs' = objs @@ (nobj + 1 :> [ty |-> o.ty, buf |-> o.buf, idx |-> ni, par |-> 0])
                 /\ nobj' = nobj + 1
                 /\ env' = [env EXCEPT ![x] = nobj + 1]
@@ -164,7 +169,7 @@ AbsOf(x) == /\ "abs" \in OPS /\ More /\ Bound(x)
 
 Next ==
     \E x, y, z \in Names :
-        \/ Copy(x, y) \/ Alias(x, y) \/ Bin(x, y, z, "add") \/ Bin(x, y, z, "sub") \/ Scale(x, y, "l") \/ Scale(x, y, "r")
+        \/ Copy(x, y) \/ CopyTo(x, y) \/ Alias(x, y) \/ Bin(x, y, z, "add") \/ Bin(x, y, z, "sub") \/ Scale(x, y, "l") \/ Scale(x, y, "r")
         \/ Aug(x, y) \/ AugScalar(x) \/ SetPar(x) \/ Ufunc(x, y) \/ OutArg(x, y, z) \/ SetAll(x, y) \/ SetItem(x) \/ Comp(x, y, 0) \/ Comp(x, y, 1) \/ Stride(x, y) \/ AbsOf(x)
 
 Spec == Init /\ [][Next]_vars
@@ -182,12 +187,12 @@ NoSpookyAction ==
                          => Window(env[x]) = [i \in 1 .. LenOf(x) |-> bufs'[objs[env[x]].buf][objs[env[x]].idx[i]]]]_vars
 \* a copy never shares memory with its source
 CopyIndependent ==
-    [][(Len(prog') > Len(prog) /\ prog'[Len(prog')][1] = "copy") =>
+    [][(Len(prog') > Len(prog) /\ prog'[Len(prog')][1] \in {"copy", "copyto"}) =>
             LET x == prog'[Len(prog')][2] y == prog'[Len(prog')][3] IN
             x = y \/ (~ (objs'[env'[x]].buf = objs'[env'[y]].buf) /\ (ParOf(y) = 0 \/ objs'[env'[x]].par # objs'[env'[y]].par))]_vars
 \* component views share the parent's buffer
 ViewShares == \A x, y \in Names : (Bound(x) /\ Bound(y) /\ Overlap(env[x], env[y])) => objs[env[x]].buf = objs[env[y]].buf
-TypeOK == \A x \in Names : Bound(x) => Ty(x) \in {"mesh", "mc"} /\ LenOf(x) \in 1 .. 2 * N
+TypeOK == \A x \in Names : Bound(x) => Ty(x) \in {"mesh", "mc", "mesh2", "mc2"} /\ LenOf(x) \in 1 .. 2 * N
 
 Export == (Len(prog) = MAXLEN) => PrintT(ToJson([vs |-> TRUE, haspar |-> HASPAR, prog |-> prog, obs |-> obs]))
 =============================================================================
